@@ -5,7 +5,7 @@ import z3
 from .sym import *
 from . import contracts_dwt as CD, verify, solve, prims, specs
 from .solve import Ob
-from .interp import Interp, explore, SObj
+from .interp import Interp, explore, SObj, RepoClass
 from .specbk import SymBk as bk
 
 Bn, C, H, W, L2, N, Lr2 = z3.Ints('B C H W L2 N Lr2')
@@ -661,3 +661,110 @@ def g_orth_transpose(dim):
     obs = [solve.prove(oid + '/square', 'LEMMA', c.pc, z3.And(*[I(a) == I(b) for a, b in zip(S.shape, A.shape)]), mv)]
     obs += ADJ.adjoint_obs(oid, ys, ['g0', 'g1'], S, 'x', c.pc, mv, kind='LEMMA')
     return obs, {}
+
+
+# ---------------------------------------------------------------------------
+# stationary transform
+# ---------------------------------------------------------------------------
+def g_atrous1d(dim, dil, mode='periodic', canary=False):
+    def mk():
+        x = CD.data_tensor('x', (Bn, C, H, W))
+        return [x, CD.filt_tensor('h0', _filt_shape(dim, L), dim % 4), CD.filt_tensor('h1', _filt_shape(dim, L), dim % 4)], \
+            {'mode': mode, 'dim': dim, 'dilation': dil}
+    con = CD.afb1d_atrous_contract
+    if canary:     # deliberately wrong: the contract of the next dilation
+        con = lambda it, *a, **k: CD.afb1d_atrous_contract(it, *a, **dict(k, dilation=2 * k['dilation']))
+    return verify.verify_function('afb1d_atrous[%s,dim=%d,dilation=%d]' % (mode, dim, dil), 'dwt.lowlevel', 'afb1d_atrous', mk,
+                                  BASE, con, HELPERS, SIZES)
+
+
+def g_atrous2d(dil, mode='periodic'):
+    def mk():
+        r = _filts2d('h')
+        return [CD.data_tensor('x', (Bn, C, H, W)), (r[2], r[3], r[0], r[1])], {'mode': mode, 'dilation': dil}
+    return verify.verify_function('afb2d_atrous[%s,dilation=%d]' % (mode, dil), 'dwt.lowlevel', 'afb2d_atrous', mk,
+                                  BASE + [Lr2 >= 1], CD.afb2d_atrous_contract,
+                                  {'dwt.lowlevel:afb1d_atrous': CD.afb1d_atrous_contract}, SIZES + [Lr2])
+
+
+def g_swt_module(JMAX, mode, waveform='wavelet'):
+    """SWTForward: real __init__ + forward with a symbolic number of levels J <= JMAX.
+    Level-loop invariant: after j iterations  ll = A_j,  coeffs = [Y_1..Y_j]  with
+    Y_{j+1} = one pywt.swt2 level of A_j with dilation 2^j and A_{j+1} = Y_{j+1}[:, :, 0].
+    INV-step is proved for every j < JMAX separately (2**j is evaluated concretely:
+    the proof is BOUNDED in the number of levels, unbounded in everything else)."""
+    from .modules_dwt import Side, _fresh_dims, same_tensor
+    from .prims import SList
+    Lc2_, Lr2_, Jv = z3.Ints('Lc2 Lr2 J')
+    Lc_, Lr_ = 2 * Lc2_, 2 * Lr2_
+    mv = [Bn, C, H, W, Lc2_, Lr2_, Jv]
+    base = [Bn >= 1, C >= 1, H >= 1, W >= 1, Lc2_ >= 1, Lr2_ >= 1, Jv >= 1, Jv <= JMAX]
+    oid = 'SWTForward[J<=%d,%s,%s]' % (JMAX, mode, waveform)
+    callees = {'dwt.lowlevel:prep_filt_afb2d': CD.prep_filt_afb2d_contract, 'dwt.lowlevel:afb2d_atrous': CD.afb2d_atrous_contract}
+
+    def rule_for(side):
+        def rule(it, node, rng, env):
+            c = ctx()
+            side.rec.append(('init', env['ll'], env['coeffs'], rng))
+            T0 = env['ll']
+            saved = dict(env)
+            for jc in range(JMAX):
+                e2 = dict(saved)
+                dims = _fresh_dims('n', 2)
+                A = CD.data_tensor('A', tuple(T0.shape[:2]) + tuple(dims))
+                pre = SList(jc, 'Y')
+                e2['ll'] = A
+                e2['coeffs'] = pre
+                it.assign(node.target, jc, e2)
+                it.run(node.body, e2)
+                side.rec.append(('step', jc, A, e2['ll'], e2['coeffs'], pre))
+            env['coeffs'] = SList(Jv, 'Y')
+            env['ll'] = None
+            side.exit = env['coeffs']
+        return rule
+
+    def run():
+        side = Side()
+        wc = CD.wavelet_obj('col.', Lc_)
+        wr = CD.wavelet_obj('row.', Lr_) if waveform == 'tuple4' else wc
+        it = Interp(contracts=callees, hooks={'pywt.Wavelet': lambda name: wc})
+        it.loop_contracts[(('dwt.transform2d', 'SWTForward.forward'), 0)] = rule_for(side)
+        wave = wc if waveform == 'wavelet' else (wc.a['dec_lo'], wc.a['dec_hi'], wr.a['dec_lo'], wr.a['dec_hi'])
+        kw = {'J': Jv, 'wave': wave}
+        if mode is not None:
+            kw['mode'] = mode
+        self = prims.instantiate(it, RepoClass('dwt.transform2d', 'SWTForward'), [], kw)
+        x = CD.data_tensor('x', (Bn, C, H, W))
+        return it.call('dwt.transform2d', 'SWTForward.forward', [self, x], {}), x, wc, wr, side
+    obs = []
+    info = {'paths': 0}
+    for k, (c, res) in enumerate(explore(run, base)):
+        CUR.ctx = c
+        if c.solver.check() == z3.unsat:
+            continue
+        pid = '%s/path%d' % (oid, k)
+        info['paths'] += 1
+        if res[0] == 'raise':
+            obs.append(Ob(pid + '/unexpected-raise', 'POST', 'refuted', 'path', 0,
+                          {'what': '%s: %s' % (res[1].kind, res[1].msg), 'model': {'J': 1}}))
+            continue
+        out, x, wc, wr, side = res[1]
+        for rec in side.rec:
+            if rec[0] == 'init':
+                _, T0, L0, rng = rec
+                ok = same_tensor(T0, x) and isinstance(L0, list) and L0 == []
+                obs.append(Ob(pid + '/INV-init', 'INV-init', 'proved' if ok else 'refuted', 'structural', 0))
+                obs.append(solve.prove(pid + '/INV-init[range is 0..J)', 'INV-init', c.pc, z3.And(I(rng.lo) == 0, I(rng.hi) == Jv), mv))
+            else:
+                _, jc, A, newT, lst, pre = rec
+                want = CD.spec_swt_level_2d(A, (wc.a['dec_lo'], wc.a['dec_hi']), (wr.a['dec_lo'], wr.a['dec_hi']), 2 ** jc)
+                ok = lst is pre and len(lst.tail) == 1
+                obs.append(Ob('%s/INV-step[j=%d]/one-level-appended' % (pid, jc), 'INV-step', 'proved' if ok else 'refuted', 'structural', 0))
+                if ok:
+                    obs += verify.value_equal('%s/INV-step[j=%d]/level' % (pid, jc), 'INV-step', lst.tail[0], want, c.pc, mv)
+                    obs += verify.value_equal('%s/INV-step[j=%d]/next-approximation' % (pid, jc), 'INV-step', newT,
+                                              tget(want, (slice(None), slice(None), 0)), c.pc, mv)
+        ok = out is side.exit and not out.tail
+        obs.append(Ob(pid + '/POST[returns [Y_1..Y_J]]', 'POST', 'proved' if ok else 'refuted', 'structural', 0))
+        obs += solve.safety_obligations(pid, c, mv)
+    return obs, info
